@@ -31,7 +31,7 @@ RUNS = {"quick": 160, "thorough": 4000}
 RUN_WALL_CAP = 240.0
 REQUIRED_PROBES = {"quick": ["other_container", "three_distinct_methods", "method_repeated", "lower_bound_obtained", "two_lower_bounds_different_entropy", "npa_obtained", "reps2_game", "bcs_game", "unequal_alphabets", "value_strictly_inside", "two_objects_same_shape"], "thorough": ["three_distinct_methods", "method_repeated", "lower_bound_obtained", "two_lower_bounds_different_entropy", "npa_obtained", "npa2_obtained", "reps2_game", "bcs_game", "unequal_alphabets", "value_strictly_inside", "two_objects_same_shape"]}
 COMPONENTS = {"real": ["toqito.nonlocal_games.NonlocalGame (constructor, from_bcs_game, classical_value, nonsignaling_value, commuting_measurement_value_upper_bound, quantum_value_lower_bound)", "toqito.helper.npa_constraints / update_odometer", "toqito.matrix_ops.tensor", "toqito.rand.random_povm", "cvxpy + SCS/Clarabel"], "stub": ["OS entropy for the see-saw start (numpy.random.bit_generator.randbits -> choice source)"]}
-RULE = ("one run = one or two game objects of the same shape and different contents (1..3 answers x 1..3 questions per player, unequal allowed; reps 2 for <=2x2x2x2; or from_bcs_game with 1..3 constraints over 2..3 variables) and 3..8 value-method calls "
+RULE = ("one run = one or two game objects of the same shape and different contents (1..3 answers x 1..3 questions per player, unequal allowed; reps 2 for <=2x2x2x2; or from_bcs_game with 1..3 constraints over 2..3 variables) and 3..8 value-method calls (some first attempted and aborted by an injected interrupt inside library code; sometimes a third object with byte-identical buffers read in another shape; lopsided games where one player has >= 2**63 strategies) "
         "in seeded order with repetition (classical, non-signaling, NPA level 1 / '1+ab' / 2, see-saw lower bound under seeded entropy); non-trivial = >=2 distinct methods, at least one repeated, "
         "some value strictly between 0 and 1; distinct = distinct digest of (game, operation sequence, entropy values)")
 SHRINK_ORDER = ["config", "game", "ops", "intr"]  # "game:2", "ops:which" sort after these
